@@ -378,6 +378,13 @@ func c16Names(text string, scheme int) string {
 		case 1:
 			// reversed alphabetical order of names (affects sorted-name index assignment)
 			sb.WriteString("z" + strings.NewReplacer("0", "9", "1", "8", "2", "7", "3", "6", "4", "5", "5", "4").Replace(name) + "q")
+		case 3:
+			// every function calls its parameters q0, q1, ...: the same name in many scopes
+			if strings.HasPrefix(name, "p") && strings.Contains(name, "_") {
+				sb.WriteString("q" + name[strings.IndexByte(name, '_')+1:])
+			} else {
+				sb.WriteString(name)
+			}
 		default:
 			h := 0
 			for _, c := range name {
@@ -492,7 +499,7 @@ func c16Check(c *core.Ctx, cs c16Case) {
 	for _, ord := range orders {
 		// BEGIN blocks keep their relative order (their order is semantic)
 		ord = keepBeginOrder(ord, n-cs.NBegins)
-		for scheme := 0; scheme < 3; scheme++ {
+		for scheme := 0; scheme < 4; scheme++ {
 			src := c16Source(cs.Items, ord, scheme)
 			r := c16Run(src)
 			c.Eval(1)
@@ -524,6 +531,45 @@ func c16Check(c *core.Ctx, cs c16Case) {
 	if c.WantSample() && len(base) < 900 {
 		c.Sample(map[string]any{"shape": cs.Shape, "source": base, "model_rejects": cs.Reject, "conflict": cs.Why, "parser_error": r0.errMsg})
 	}
+}
+
+// c16Sharing: arrays are shared by reference, scalars are copied, and the local arrays and
+// scalars of a call are new for every call - also when an earlier call of the function (or of
+// another one) was left through next, nextfile, exit, getline errors or deep recursion.
+func c16Sharing() []genCase {
+	input := ""
+	for k := 1; k <= 40; k++ {
+		input += fmt.Sprintf("r%d %d x\n", k, k)
+	}
+	progs := []string{
+		"function f(x,   loc) { loc[NR] = 1; loc[\"k\"]; if (x % 2) next; return length(loc) }\n{ s = s f(NR) }\nEND { print s, NR }",
+		"function g(   seen, k, n) { for (k in seen) n++; seen[NR] = 1; seen[NR, 2] = 2; if (NR % 3 == 0) next; return n + 0 }\n{ t = t g() }\nEND { print t, NR }",
+		"function fill(   m) { m[1]; m[2]; m[3]; exit 3 }\nfunction cnt(   m2, k, n) { for (k in m2) n++; return (1 in m2) \":\" n + 0 \":\" length(m2) }\nNR == 5 { fill() }\nEND { print cnt(), NR }",
+		"function a(   l1, l2) { l1[1] = 1; l2[\"x\"] = 2; b(); return 0 }\nfunction b(   m1, m2, m3) { m1[9]; if (NR % 2) next; return length(m1) length(m2) length(m3) }\nfunction c(   n1, n2, n3) { return length(n1) length(n2) length(n3) (1 in n1) (\"x\" in n2) (9 in n1) }\n{ a() }\n{ print NR, c() }\nEND { print c() }",
+		"function r(d,   loc) { loc[d] = d; if (d < 5) return r(d + 1) + length(loc); if (NR % 2) next; return length(loc) }\n{ print r(0) }",
+		"function inc(s, arr) { s++; arr[\"n\"]++; return s }\n{ v = 1; w = inc(v, A); print v, w, A[\"n\"] }",
+		"function set(arr, k, v) { arr[k] = v }\nfunction get(arr, k) { return arr[k] }\nfunction both(a1, a2) { set(a1, 1, \"one\"); return get(a2, 1) }\nBEGIN { print both(X, X); print both(Y, Z) \"|\" length(Z) }",
+		"function clear(arr) { delete arr }\nfunction size(arr) { return length(arr) }\nBEGIN { split(\"a b c\", T); print size(T); clear(T); print size(T); T[5]; print size(T) }",
+		"function mk(arr,   i) { for (i = 0; i < 3; i++) arr[i] = i * i }\nfunction sum(arr,   k, t) { for (k in arr) t += arr[k]; return t }\nfunction wrap(   local) { mk(local); return sum(local) }\nBEGIN { print wrap(), wrap(); mk(G); print sum(G), length(G) }",
+		"function f(p) { p = 5; return p }\nBEGIN { q = 1; print f(q), q; print f($1), $1; A[1] = 2; print f(A[1]), A[1] }",
+		"function outer(   o) { o[1] = \"o\"; inner(o); return o[1] o[2] }\nfunction inner(arr,   own) { own[1] = \"i\"; arr[2] = own[1]; arr[1] = arr[1] \"!\" }\nBEGIN { print outer(), outer() }",
+		"function unset_then_array(u) { u[1] = 1; return length(u) }\nfunction fwd(v) { return unset_then_array(v) }\nBEGIN { print fwd(fresh), length(fresh), (1 in fresh) }",
+		"function unset_scalar(u) { u = 3; return u }\nfunction fwd(v) { return unset_scalar(v) }\nBEGIN { print fwd(never) \"[\" never \"]\" }",
+		"function deep(n, arr,   loc) { loc[n]; arr[n] = length(loc); if (n > 0) deep(n - 1, arr); return length(loc) }\nBEGIN { print deep(30, R), length(R), R[0], R[30] }",
+		"function g2(   tmp) { tmp[NR]; if ((getline line < \"nofile\") < 0 && NR % 2) next; return length(tmp) }\n{ out = out g2() }\nEND { print out }",
+		"function many(a, b, c, d, e, f2, g3, h) { h[1]; f2[2]; if (NR == 2) nextfile; return length(h) length(f2) length(a) }\n{ print many() }",
+		"function lvl1(   x1) { x1[1]; return lvl2() length(x1) }\nfunction lvl2(   x2, y2) { x2[1]; y2[1]; y2[2]; if (NR == 3) next; return length(x2) length(y2) }\n{ print lvl1() }\nEND { print lvl1() }",
+		"function e(   m) { m[NR]; if (NR == 4) exit; return length(m) }\n{ print e() }\nEND { print \"end\", e(), e() }",
+		"function swap(arr, i, j,   t) { t = arr[i]; arr[i] = arr[j]; arr[j] = t }\nBEGIN { n = split(\"c a b\", S); swap(S, 1, 3); swap(S, 1, 2); print S[1] S[2] S[3], n, t }",
+		"function count(s,   parts, n) { n = split(s, parts); if (n > 2) next; return n }\n{ print count($0), length(parts) }\nEND { print count(\"a b\") }",
+	}
+	var out []genCase
+	for _, p := range progs {
+		cs := genCase{Family: "sharing", Src: p + "\n"}
+		cs.Env.Stdin = input
+		out = append(out, cs)
+	}
+	return out
 }
 
 func permute(a []int, f func([]int)) {
@@ -581,12 +627,18 @@ func init() {
 		},
 		NBatches: func(t core.Tier) int { return n(t, 16, 64) },
 		Floors: func(t core.Tier) map[string]int {
-			return map[string]int{"evaluations": n(t, 30000, 1500000), "distinct_nontrivial": n(t, 1500, 80000), "accepted_programs": n(t, 600, 30000), "rejected_programs": n(t, 300, 15000), "semantics_agreed": n(t, 500, 25000), "shapes": 8}
+			return map[string]int{"evaluations": n(t, 30000, 1500000), "distinct_nontrivial": n(t, 1500, 80000), "accepted_programs": n(t, 600, 30000), "rejected_programs": n(t, 300, 15000), "semantics_agreed": n(t, 500, 25000), "shapes": 8, "sharing_cases": 20}
 		},
 		Run: func(c *core.Ctx) {
 			if err := diffrun.Prepare(c.WorkDir()); err != nil {
 				c.Inconclusive("chdir: " + err.Error())
 				return
+			}
+			for i, cs := range c16Sharing() {
+				if c.Mine(i) {
+					c01RunCase(c, cs, "C16")
+					c.Count("sharing_cases", 1)
+				}
 			}
 			rng := c.Rand("cases")
 			total := n(c.Tier, 2400, 120000) / c.NBatches
@@ -598,11 +650,20 @@ func init() {
 			var w struct {
 				Case   c16Case `json:"case"`
 				Source string  `json:"source"`
+				Src    string  `json:"src"`
 			}
 			if json.Unmarshal(raw, &w) != nil {
 				return
 			}
 			if err := diffrun.Prepare(c.WorkDir()); err != nil {
+				return
+			}
+			if w.Src != "" { // a sharing case (VM vs reference evaluator)
+				var cs genCase
+				if json.Unmarshal(raw, &cs) == nil {
+					fmt.Printf("program:\n%s\n", cs.Src)
+					c01RunCase(c, cs, "C16")
+				}
 				return
 			}
 			fmt.Printf("source:\n%s\nmodel rejects: %v %s\n", w.Source, w.Case.Reject, w.Case.Why)
